@@ -110,6 +110,13 @@ class Gen:
             if rng.random() < 0.93:
                 values[pid] = v if rng.random() < 0.95 else None   # the snapshot may differ from the live value
         self_id = rng.choice([None, 'p1', 'p2', 'p7'])
+        if self_id in ports and rng.random() < 0.5:
+            # the own port changed between the scheduling of the evaluation (snapshot) and the evaluation (live value);
+            # falsy live values (0, false, unavailable) next to a different snapshot are the interesting corner
+            enabled, _ = ports[self_id]
+            live = rng.choice([0, 0.0, False, None, rand_value(rng)])
+            ports[self_id] = (enabled, live)
+            values[self_id] = rand_value(rng)
         now_ms = rng.choice([0, 999, 1000, 1552559696654, 1700000000123, rng.randint(0, 2 ** 42), 2 ** 53 + 1])
         transform = rng.random() < 0.3
         return {'ports': ports, 'values': values, 'self_id': self_id, 'now_ms': now_ms, 'transform': transform}
@@ -209,6 +216,7 @@ async def eval_impl(cases):
     core_ports.get = lambda pid: registry.get(pid)
     out = []
     deps_seen = []
+    prev_key, prev_expr = None, None
     try:
         for c, t in cases:
             registry.clear()
@@ -216,7 +224,12 @@ async def eval_impl(cases):
                 registry[pid] = FakePort(pid, enabled, last)
             role = ROLE_TRANSFORM_WRITE if c['transform'] else ROLE_VALUE
             try:
-                e = expressions.parse(c['self_id'], text_of(t), role)
+                key = (text_of(t), c['self_id'], role)
+                if key == prev_key:
+                    e = prev_expr                     # one expression object evaluated repeatedly
+                else:
+                    e = expressions.parse(c['self_id'], text_of(t), role)
+                    prev_key, prev_expr = key, e
             except Exception as exn:
                 out.append(('parse-error', '%s: %s' % (type(exn).__name__, exn)))
                 deps_seen.append(None)
@@ -369,10 +382,15 @@ def regression_cases():
 def gen_cases(ctx, n, table):
     g = Gen(ctx.rng, table)
     cases = regression_cases()
-    for _ in range(n):
-        c = g.context()
+    while len(cases) < n:
         t = g.tree(ctx.rng.choice([1, 2, 2, 3, 3, 4]))
+        c = g.context()
         cases.append((c, t))
+        # the same expression (one object, as a port keeps it) under further contexts: stateless functions must not remember
+        for _ in range(ctx.rng.choice([0, 0, 1, 2])):
+            c2 = g.context()
+            c2['self_id'], c2['transform'] = c['self_id'], c['transform']
+            cases.append((c2, t))
     return cases
 
 
@@ -389,6 +407,8 @@ def boundary_product(table):
         if n > 3:
             continue
         for tup in itertools.product(pool, repeat=n):
+            if e['name'] in ('SHL', 'SHR') and isinstance(tup[1], int) and abs(tup[1]) > 10000:
+                continue                      # a shift by 2^53 bits is a MemoryError in CPython: outside the model
             args = []
             for v in tup:
                 t, pv = lit_text(None, v)
@@ -404,7 +424,7 @@ def check(ctx, res):
         'boundary-biased pool (+-0.0, inf, nan, 2^53+-1, 2^63.., halves, decimal fractions, bools), contexts mixing present / '
         'None / disabled / unknown ports and value/transform roles; distinct = distinct (expression text, context); '
         'non-trivial = at least 2 function nodes and at least one port read')
-    cases = gen_cases(ctx, ctx.n(3000, 60000), table)
+    cases = gen_cases(ctx, ctx.n(3000, 30000), table)
     if ctx.tier == 'thorough':
         cases += boundary_product(table)
     seen = set()
@@ -421,7 +441,7 @@ def check(ctx, res):
 
 def search(ctx, res):
     table, _ = functable.read_table()
-    cases = gen_cases(ctx, ctx.n(12000, 60000), table) + boundary_product(table)
+    cases = gen_cases(ctx, ctx.n(12000, 30000), table) + boundary_product(table)
     for i in range(0, len(cases), 4000):
         run_batch(ctx, res, cases[i:i + 4000], 's%d' % i)
 
